@@ -12,7 +12,7 @@ import (
 func vRefTemplate(x, y byte) (root string, body string, names []string) {
 	X := "@" + string([]byte{x})
 	Y := "@" + string([]byte{y})
-	switch zzverif.IntRange("position", 0, 9) {
+	switch zzverif.IntRange("position", 0, 12) {
 	case 0:
 		return `{"k": ` + X + `}`, `1`, []string{X}
 	case 1:
@@ -32,8 +32,14 @@ func vRefTemplate(x, y byte) (root string, body string, names []string) {
 		return `{} // {additionalProperties: "` + X + `"}`, `{"v": 1}`, []string{X}
 	case 8:
 		return `[` + X + `, {"k": ` + Y + `}, ` + X + `]`, `1`, []string{X, Y, X}
-	default:
+	case 9:
 		return "{ // {allOf: [\"" + X + "\", \"" + Y + "\"]}\n  \"own\": " + X + "\n}", `{}`, []string{X, Y, X}
+	case 10: // a QUOTED key that looks like a type name is a plain key; its value is scanned
+		return `{"` + X + `": {"k": ` + Y + `}, "z": [` + Y + `]}`, `1`, []string{Y}
+	case 11: // allOf on an own member below another allOf object
+		return "{ // {allOf: \"" + X + "\"}\n  \"inner\": { // {allOf: \"" + Y + "\"}\n    \"deep\": 1\n  }\n}", `{}`, []string{X, Y}
+	default: // rule sets (unnamed types) in the root and in the registered types, all in files of the same name
+		return `1 // {or: [{type: "` + X + `"}, {type: "integer", min: 0}]}`, `1 // {or: [{type: "integer"}, {type: "string"}]}`, []string{X}
 	}
 }
 
@@ -87,10 +93,11 @@ func VerifC05_References() {
 	rootText, body, names := vRefTemplate(x, y)
 	want := vDistinct(names)
 	reg := map[string]bool{"@a": zzverif.Bool("reg.a"), "@b": zzverif.Bool("reg.b"), "@c": zzverif.Bool("reg.c")}
-	root := New("root", rootText)
+	// every schema lives in a file of the same name (as when all come from one document)
+	root := New("doc", rootText)
 	for _, n := range []string{"@a", "@b", "@c"} {
 		if reg[n] {
-			zzverif.Assert(root.AddType(n, New(n, body)) == nil, "a valid type can be registered")
+			zzverif.Assert(root.AddType(n, New("doc", body)) == nil, "a valid type can be registered")
 		}
 	}
 	used, uerr := New("u", rootText).UsedUserTypes()
@@ -136,16 +143,19 @@ func VerifC05_UnusedType() {
 	y := zzverif.OneOf("y", "ab")
 	rootText, body, _ := vRefTemplate(x, y)
 	regA, regB := zzverif.Bool("reg.a"), zzverif.Bool("reg.b")
+	extraBodies := []string{`{"unused": "type"}`, `1 // {or: [{type: "integer"}, {type: "string"}]}`, `1 // {or: [{type: "string"}, {type: "integer", min: 0}]}`, `"x" // {or: [{type: "string"}, {type: "integer", min: 0}]}`}
+	extraKind := zzverif.IntRange("extra", 0, len(extraBodies)-1)
 	build := func(extra bool) *JSchema {
-		r := New("root", rootText)
+		r := New("doc", rootText)
 		if regA {
-			_ = r.AddType("@a", New("@a", body))
+			_ = r.AddType("@a", New("doc", body))
 		}
 		if extra {
-			_ = r.AddType("@zz", New("@zz", `{"unused": "type"}`))
+			// same file name, a rule set at the same offset as the root's
+			_ = r.AddType("@zz", New("doc", extraBodies[extraKind]))
 		}
 		if regB {
-			_ = r.AddType("@b", New("@b", body))
+			_ = r.AddType("@b", New("doc", body))
 		}
 		return r
 	}
